@@ -385,6 +385,9 @@ pub fn expected_client_info(c: &ConnCfg) -> (String, String, String) {
 /// C17: secrets leave only where the mode allows
 /// the server selected a protocol that was not offered: the client must refuse, and by then no CredSSP message, no
 /// Client Info and no password may have left it
+/// shortest byte string searched for in ciphertext / random-bearing messages (see check_c17)
+const MIN_NEEDLE: usize = 6;
+
 pub fn check_c17_unoffered(t: &Transcript) -> Option<Finding> {
     if t.connect_ok {
         return Some(f("unoffered-selection-accepted", format!("connect succeeded although the server selected {:#x}", t.params.selected)));
@@ -402,7 +405,7 @@ pub fn check_c17_unoffered(t: &Transcript) -> Option<Finding> {
     }
     if !t.cfg.client.password.is_empty() {
         for n in [t.cfg.client.password.as_bytes().to_vec(), utf16le(&t.cfg.client.password)] {
-            if find(&t.raw_before_tls, &n).is_some() || find(&t.raw_after_cc, &n).is_some() {
+            if n.len() >= MIN_NEEDLE && (find(&t.raw_before_tls, &n).is_some() || find(&t.raw_after_cc, &n).is_some()) {
                 return Some(f("password-on-raw-transport", "password visible on the raw transport".to_string()));
             }
         }
@@ -410,13 +413,34 @@ pub fn check_c17_unoffered(t: &Transcript) -> Option<Finding> {
     None
 }
 
+/// the password (and the user name) must not be readable in any CredSSP message, even inside TLS: the credentials
+/// travel sealed
+pub fn check_c17_readable(t: &Transcript) -> Option<Finding> {
+    if t.cfg.client.password.is_empty() || t.cfg.use_hash || t.cfg.restricted_admin || t.cfg.blank_creds {
+        return None;
+    }
+    let pw16 = utf16le(&t.cfg.client.password);
+    let pw8 = t.cfg.client.password.as_bytes().to_vec();
+    for m in &t.log {
+        if m.name.starts_with("cssp_") && ((pw16.len() >= MIN_NEEDLE && find(&m.raw, &pw16).is_some()) || (pw8.len() >= MIN_NEEDLE && find(&m.raw, &pw8).is_some())) {
+            return Some(f("password-readable-in-a-credssp-message", format!("{} carries the password unsealed", m.name)));
+        }
+    }
+    None
+}
+
 pub fn check_c17(t: &Transcript) -> Option<Finding> {
+    if let Some(x) = check_c17_readable(t) {
+        return Some(x);
+    }
     if !t.connect_ok {
         return Some(f("conforming-server-refused", format!("{} {:?}", t.connect_error, t.server_errors)));
     }
     let pw8 = t.cfg.client.password.as_bytes().to_vec();
     let pw16 = utf16le(&t.cfg.client.password);
-    let needles: Vec<(&str, Vec<u8>)> = if t.cfg.client.password.is_empty() { vec![] } else { vec![("utf-8", pw8), ("utf-16", pw16)] };
+    // the raw transport carries kilobytes of TLS ciphertext and random nonces: a needle of a few bytes would be found
+    // there by chance (and differently in every run); six bytes make that negligible (2^-48 per position)
+    let needles: Vec<(&str, Vec<u8>)> = [("utf-8", pw8), ("utf-16", pw16)].into_iter().filter(|(_, n)| n.len() >= MIN_NEEDLE).collect();
     // raw transport
     for (enc, n) in &needles {
         if find(&t.raw_before_tls, n).is_some() || find(&t.raw_after_cc, n).is_some() {
@@ -503,7 +527,7 @@ pub fn check_c17(t: &Transcript) -> Option<Finding> {
         return Some(f("auto-logon-flag-mismatch", format!("flags {:#x} auto_logon requested {}", flags, t.cfg.client.auto_logon)));
     }
     // the password appears in the decrypted stream only inside those two messages
-    if let Some((_, n)) = needles.get(1) {
+    if let Some((_, n)) = needles.iter().find(|(e, _)| *e == "utf-16") {
         let mut count = 0;
         let mut p = 0;
         while let Some(i) = find(&t.plaintext_in[p..], n) {
